@@ -74,7 +74,9 @@ def strategy():
                     p0 = draw(st.sampled_from(here)) - 1 + draw(st.sampled_from([0, 0, 0, 0, -1, 1]))
                 else:
                     p0 = draw(st.integers(0, 45))
-                ops.append(['q', c, max(0, p0), draw(st.sampled_from(BASES))])
+                # most lookups ask both questions; some only has_location, some only getAllelesAt (the two entry points
+                # load and evict contigs independently)
+                ops.append(['q', c, max(0, p0), draw(st.sampled_from(BASES)), draw(st.sampled_from(['both', 'both', 'h', 'a']))])
         # sessions: a resolver is created and tours the contigs (with returns to contigs visited before)
         for sess in range(draw(st.integers(1, 4))):
             if draw(st.integers(0, 5)) == 0:
@@ -276,14 +278,15 @@ def eval_case(case):
                 if exact and want_g != exp_ga:
                     out.bad('reference-vs-vcf:getAllele', 'read over %s with bases %r resolves to %r, the VCF says %r' % (c, ''.join(bases), want_g, exp_ga))
                 continue
-            _, c, p0, base = op
+            _, c, p0, base = op[:4]
+            qmode = op[4] if len(op) > 4 else 'both'
             with contextlib.redirect_stdout(io.StringIO()):
                 try:
                     at_mod.gzip = real_gzip
                     want_a, want_h = ref.getAllelesAt(c, p0, base), ref.has_location(c, p0)
                     at_mod.gzip = session_gzip
-                    got_h = cur.has_location(c, p0)
-                    got_a = cur.getAllelesAt(c, p0, base)
+                    got_h = cur.has_location(c, p0) if qmode in ('both', 'h') else want_h
+                    got_a = cur.getAllelesAt(c, p0, base) if qmode in ('both', 'a') else want_a
                 except Exception as e:
                     import traceback
                     tb = [x for x in traceback.extract_tb(e.__traceback__) if 'singlecellmultiomics' in x.filename]
